@@ -191,8 +191,34 @@ def meta_after_label(b):
     return None
 
 
+ZERO_MARK = b';assert 0*0*0*0'
+
+
+def zero_assert_after_label(b):
+    """the same text with a condition that is zero written between the first line that holds only labels and the
+    instruction those labels belong to - when that line stands in front of every FOR block (inside a block the line
+    may never be written out).  Returns (text, has_for) or None."""
+    import re
+    t = bytes(b)
+    lines = t.split(b'\n')
+    has_for = re.search(rb'(?i)(^|[^A-Za-z0-9_.;])for([^A-Za-z0-9_]|$)', b'\n'.join(l.split(b';')[0] for l in lines)) is not None
+    for i in range(0, len(lines) - 1):
+        code = lines[i].split(b';')[0]
+        ws = code.split()
+        if any(w.lower() in (b'for', b'rof', b'end') for w in ws):
+            return None
+        if ws and lines[i].find(b';') < 0 and all(re.match(rb'^[A-Za-z_][A-Za-z0-9_]*:?$', w) and w.rstrip(b':').lower() not in _WORDS for w in ws):
+            nxt = lines[i + 1].split(b';')[0].split()
+            if not nxt or nxt[0].lower() in (b'for', b'rof', b'end', b'equ') or (len(nxt) > 1 and nxt[1].lower() in (b'equ', b'for')):
+                return None
+            out = lines[:i + 1] + [ZERO_MARK] + lines[i + 1:]
+            return list(b'\n'.join(out)), has_for
+    return None
+
+
 class AsmPlan(Plan):
     two_stage = True
+    zero_asserts = False
     tie = ASM_TIE
     timeout_ms = 8000
     check_meta = True
@@ -215,12 +241,30 @@ class AsmPlan(Plan):
                 moved = meta_after_label(r[1:])
                 if moved is not None:
                     out.append(' '.join(str(x) for x in [10] + cfg + moved))
+        if self.zero_asserts:
+            r = find(spec, 60)
+            z = zero_assert_after_label(r[1:]) if r is not None else None
+            if z is not None:
+                out.append(' '.join(str(x) for x in [10] + cfg + z[0]))
         return out
+
+    def matches(self, finding, ints, verdict):
+        m = finding.get('match')
+        return bool(m) and any(m in w for w in verdict.get('why', []))
 
     def judge(self, ints, spec, idx, conc, impl):
         f = fatal(impl)
         if f:
             return f
+        if self.zero_asserts and idx > 0 and ZERO_MARK in bytes(x for x in conc[9:] if 0 <= x < 256):
+            # a program is refused exactly when one of its ;assert conditions is zero - wherever the line stands
+            st = find(impl, 70)
+            if st is None:
+                return 'no-result'
+            if st[1] == 1:
+                return None
+            z = zero_assert_after_label(find(spec, 60)[1:])
+            return 'accepted-a-program-whose-assert-condition-is-zero (the line stands between a label and its instruction' + (', in front of a FOR block)' if z and z[1] else ')')
         exp = find(spec, 62)
         if exp is None or exp[1] == 5:
             return None
@@ -338,6 +382,7 @@ class C07(AsmPlan):
     pid = 'C07'
     check_meta = False
     pad_numbers = True
+    zero_asserts = True
     tie_name = 'expressions: gmars evaluateExpression (through CompileWarrior and the verif hook) vs the extracted combineSigns / flipDoubleNegatives / evaluator model'
     rule = ('infix expressions of depth <= 6 over literals, predefined constants, labels and EQU names, with sign runs of 1..5, redundant parentheses, optional blanks, division and remainder; '
             'assembled as operands under M = 2^40 (value recovered exactly) and under small M (reduction), as ORG arguments and as ;assert conditions; expected = extracted reference evaluator; '
@@ -353,6 +398,7 @@ class C07(AsmPlan):
 class C08(AsmPlan):
     pid = 'C08'
     check_meta = False
+    zero_asserts = True
     tie_name = 'FOR programs and their unrollings: gmars vs the extracted scanner / expander / pass-loop model'
     rule = ('programs with FOR/ROF blocks one after another and nested to depth 3, counts 0..6, up to 40 expansions, counters used in operand expressions of inner and outer bodies, optional block labels; '
             'the extracted reference unrolls the program; gmars assembles both the FOR text and the unrolled text and both must equal the extracted Meaning of the unrolling; non-trivial = both assemble')
